@@ -7,7 +7,7 @@
 (*         Unicode and in IDNA form (environment facts: Python's idna codec is outside)          *)
 (*  dance: [t, i, op, s, d, back, err]   d = _wsgi_encoding_dance(s), back = _wsgi_decoding_dance(d) *)
 (*  env  : [t, i, op, path, pairs, scheme, hostU, hostA, port, root, err,                        *)
-(*          rpath, rargs, rhost, rurl, rroot]     EnvironBuilder(...) -> Request                 *)
+(*          rpath, rargs, rhost, rurl, wurl, rbase, rroot]   EnvironBuilder(...) -> Request       *)
 (*  disp : [t, i, op, mounts, script0, p, err, app, script1, pinfo1]   DispatcherMiddleware      *)
 EXTENDS Iri, Dispatcher, TLC, Json, IOUtils
 
@@ -83,6 +83,7 @@ PairsScalar(ps) == \A j \in 1..Len(ps) : AllScalar(ps[j][1]) /\ AllScalar(ps[j][
 EnvDomain(r) ==
   /\ AllScalar(r.path) /\ NoTabNl(r.path) /\ NoRaw(r.path, {63, 35})
   /\ r.path # <<>> /\ r.path[1] = 47 /\ (Len(r.path) >= 2 => r.path[2] # 47)
+  /\ LET e == DataBytes(r.path) IN Len(e) >= 2 => e[2] # 47      \* nor "//" once percent-decoded
   /\ PairsScalar(r.pairs)
   /\ SchemeOK(r.scheme) /\ PortOK(r.port) /\ r.hostU # <<>>
   /\ AllScalar(r.root) /\ NoTabNl(r.root) /\ NoRaw(r.root, {63, 35}) /\ ~HasEsc(r.root)
@@ -94,6 +95,15 @@ HostPort(h, p) == IF p = <<>> THEN h ELSE h \o <<58>> \o p
 ExpPath(p) == IF ~HasEsc(p) THEN p ELSE Utf8Dec(DataBytes(p))
 PathJudgeable(p) == ~HasEsc(p) \/ Utf8Valid(DataBytes(p), 1)
 
+\* a reconstructed URL (Request.url, wsgi.get_current_url(environ); Request.base_url = the same without query)
+UrlClause(r, url, withq) ==
+  LET su == SplitUrl(url) IN
+  IF ~su.ok \/ su.scheme # r.scheme \/ su.hasuser \/ su.frag # <<>> THEN "EnvUrlShape"
+  ELSE IF su.host \notin {r.hostU, r.hostA} \/ su.port # ShownPort(r) THEN "EnvUrlHost"
+  ELSE IF Mean("path", su.path) # Mean("path", r.root \o r.path) THEN "EnvUrlPath"
+  ELSE IF ParseQuery(su.query) # (IF withq THEN r.pairs ELSE <<>>) THEN "EnvUrlQuery"
+  ELSE "ok"
+
 JudgeEnv(r) ==
   IF ~EnvDomain(r) THEN "ok"
   ELSE IF r.err # "" THEN "EnvRaised"
@@ -102,12 +112,8 @@ JudgeEnv(r) ==
   ELSE IF r.rhost \notin {HostPort(r.hostA, ShownPort(r)), HostPort(r.hostU, ShownPort(r))} THEN "EnvHostNotRecovered"
   ELSE IF r.rroot # r.root THEN "EnvRootNotRecovered"
   ELSE IF HasEsc(r.path) THEN "ok"
-  ELSE LET su == SplitUrl(r.rurl) IN
-       IF ~su.ok \/ su.scheme # r.scheme \/ su.hasuser \/ su.frag # <<>> THEN "EnvUrlShape"
-       ELSE IF su.host \notin {r.hostU, r.hostA} \/ su.port # ShownPort(r) THEN "EnvUrlHost"
-       ELSE IF Mean("path", su.path) # Mean("path", r.root \o r.path) THEN "EnvUrlPath"
-       ELSE IF ParseQuery(su.query) # r.pairs THEN "EnvUrlQuery"
-       ELSE "ok"
+  ELSE LET a == UrlClause(r, r.rurl, TRUE) b == UrlClause(r, r.wurl, TRUE) c == UrlClause(r, r.rbase, FALSE) IN
+       IF a # "ok" THEN a ELSE IF c # "ok" THEN "EnvBaseUrl" ELSE IF b # "ok" THEN "WsgiGetCurrentUrl" ELSE "ok"
 DriftEnv(r) ==
   IF ~EnvDomain(r) \/ r.err # "" \/ HasEsc(r.path) \/ Len(r.rurl) > 120 THEN TRUE
   ELSE LET su == SplitUrl(r.rurl) IN su.ok /\ su.path = ToIriC("path", ToUriC("path", r.root \o r.path))
